@@ -118,6 +118,9 @@ DATUMS = [
     ("d", "#\\xDFFF0"), ("e", "?\\xDFFF0"), ("d", "#\\xD7FFF"), ("d", "#\\x10FFFF"), ("d", '"\\xDFFF0;"'), ("e", '"\\uD7FF"'),
     ("e", '"\\xD8000"'), ("e", '"\\N{U+D8000}"'), ("e", '"a\\xDFFFF\\ b"'), ("e", '"\\x10FFFF"'),
 ]
+# decimal literals whose digits alone exceed the largest double: every prefix that ends before the (negative) exponent is
+# complete is out of range - and truncated
+DATUMS += [("d", "1" + "0" * 329 + "e-30"), ("d", "9" * 330 + ".5e-40")]
 # every printable ASCII character as a character literal of each syntax (plain and, for Emacs Lisp, escaped)
 BS = "\u00a7"       # the marker main() turns into one backslash
 DATUMS += [("d", "#" + BS + (BS if c == 92 else chr(c))) for c in range(33, 127)]
